@@ -296,6 +296,36 @@ func (c18) Eval(c *Case) (*Violation, bool) {
 			}
 		}
 	}
+	if c.Tier == "thorough" {
+		// drawn pairs of faults (for example a short write and a failing cleanup)
+		rr := simrt.NewRand(uint64(c.N)*31 + 7)
+		for k := 0; k < 40 && len(base.Trace) >= 2; k++ {
+			a, b := base.Trace[rr.Intn(len(base.Trace))], base.Trace[rr.Intn(len(base.Trace))]
+			ka, kb := faultKindsFor(a.Op), faultKindsFor(b.Op)
+			if a.N == b.N || len(ka) == 0 || len(kb) == 0 {
+				continue
+			}
+			fa := simrt.Fault{Kind: ka[rr.Intn(len(ka))], Arg: rr.Intn(a.Len + 1)}
+			fb := simrt.Fault{Kind: kb[rr.Intn(len(kb))], Arg: rr.Intn(b.Len + 1)}
+			o := Run(mk(map[int]simrt.Fault{a.N: fa, b.N: fb}))
+			if o.Outcome != simrt.OutReturned && o.Outcome != simrt.OutExit {
+				return &Violation{Signature: "abnormal-end:" + o.Outcome + ":pair", Msg: fmt.Sprintf("fault pair: %s ended with %s %s", cmd, o.Outcome, o.PanicValue)}, false
+			}
+			removeFailed := false
+			for k2, n2 := range o.Fired {
+				if strings.HasPrefix(k2, "remove:") && n2 > 0 {
+					removeFailed = true
+				}
+			}
+			// with a failing cleanup a temp file may legitimately stay behind
+			if v := check(o.FS, fmt.Sprintf("faults %+v on op %d and %+v on op %d", fa, a.N, fb, b.N), removeFailed); v != nil {
+				v.Signature += ":pair"
+				c.Faults = map[int]simrt.Fault{a.N: fa, b.N: fb}
+				return v, false
+			}
+			Extra["write_fault_pairs"]++
+		}
+	}
 	// crashes: before every operation and after the last (the crash-image
 	// model does not know symbolic links: those workloads get faults only)
 	for p := 0; p <= len(base.Trace) && len(c.Links) == 0; p++ {
